@@ -394,7 +394,7 @@ func checkTypedRobustness(c *Ctx, rel string) {
 	}
 	// adaptList: skip on error, never fail
 	if fn := c.mustFunc(rel, "_adapter.adaptList"); fn != nil {
-		lp := findLoops(fn)
+		lp := findLoopsDeep(c.P, fn)
 		ok, detail := len(lp) == 1, ""
 		if ok {
 			ips := (&Walker{P: c.P}).IterRegion(fn, lp[0])
@@ -444,7 +444,7 @@ func checkTypedRobustness(c *Ctx, rel string) {
 	}
 	// typed subscription.run: range over parent.Events(); wrap error → skip; non-blocking send; defer close(outch)
 	if fn := c.mustFunc(rel, "subscription.run"); fn != nil {
-		lp := findLoops(fn)
+		lp := findLoopsDeep(c.P, fn)
 		ok, detail := len(lp) == 1, ""
 		if ok {
 			pre := (&Walker{P: c.P}).PreludeRegion(fn, lp[0])
@@ -705,11 +705,18 @@ func checkTypedClients(c *Ctx, rels []string) {
 func checkClientRequestFlows(c *Ctx) {
 	rule := "T-SIBLING(NewClient)"
 	// client.ForResource: ns → Namespace, res → Resource, ctx → Do/Watch in both closures
-	for _, k := range [][2]string{{"makeResourceListFn$1", "Do"}, {"makeResourceWatchFn$1", "Watch"}} {
-		fn := c.mustFunc("client", k[0])
-		if fn == nil {
+	for _, k := range [][2]string{{"makeResourceListFn", "Do"}, {"makeResourceWatchFn", "Watch"}} {
+		mk := c.mustFunc("client", k[0])
+		if mk == nil {
 			continue
 		}
+		fn := returnedClosure(mk)
+		if fn == nil {
+			c.undecided(rule, "client:"+k[0]+"/returned-closure", c.P.fnPos(mk), k[0]+" does not build and return exactly one closure")
+			continue
+		}
+		c.useFn(fn)
+		k[0] += "$1" // obligation keys keep the historical closure label
 		ps := pathsOf(c, fn)
 		ok, detail := len(ps) >= 1, ""
 		for _, pa := range ps {
